@@ -379,7 +379,21 @@ pub fn zoo_conformance(a: &Args, shared: &SharedReport, prefix: &str, th: bool) 
             begin_case(shared, &format!("zoo {} {:?}", z.name, cfg), rv.clone(), "machinery:hang");
             let g = xplore(&m, from_real, 4000, if th { 14 } else { 10 });
             let tabs = z.tabs();
+            // the builder describes the same model whatever the order of its calls
+            let mut order_diff: Vec<String> = Vec::new();
+            for order in [1u8, 2] {
+                let m2 = build_sys_order(&cfg, z.tabs(), &z.net(cfg.kind), order);
+                let g2 = xplore(&m2, from_real, 4000, if th { 14 } else { 10 });
+                // (exploration order may differ between two instances: compare as maps from state to its action multiset)
+                let acts = |g: &XGraph<SysState, SysAction, RState>| -> BTreeMap<RState, Vec<RAct>> { g.keys.iter().cloned().zip(g.edges.iter().map(|es| sorted(&es.iter().map(|(a, _)| act_from_real(a)).collect::<Vec<_>>()))).collect() };
+                if acts(&g2) != acts(&g) {
+                    order_diff.push(format!("builder call order {order}: {} states instead of {} (or different actions)", g2.keys.len(), g.keys.len()));
+                }
+            }
             let mut r = shared.lock().unwrap();
+            for d in order_diff {
+                r.violation(&format!("{prefix}:builder-order:{}", kname(cfg.kind)), format!("zoo {} cfg {:?}: {d}", z.name, cfg), rv.clone());
+            }
             // init state vs reference
             let want0 = RefSys::init(&cfg, &z.starts(), &z.net(cfg.kind));
             if g.keys.first() != Some(&want0) {
@@ -735,12 +749,17 @@ pub fn run_c07(a: &Args, shared: &SharedReport) {
     let mut idx = 0u64;
     for z in zoo() {
         for kind in [NetKind::Ordered, NetKind::NonDup, NetKind::Dup] {
-            for lossy in [true, false] {
+            // (lossy, crash budget): crashes are not transport steps - a message addressed to a crashed actor stays where it is
+            for (lossy, crashes) in [(true, 0usize), (false, 0), (false, 1), (true, 1)] {
                 idx += 1;
                 if idx % a.nshards != a.shard {
                     continue;
                 }
-                let cfg = SysCfg { kind, lossy, max_crashes: 0, hist: HistMode::Off };
+                if crashes > 0 && lossy && !th {
+                    continue;
+                }
+                let depth = if crashes > 0 { depth.min(if th { 9 } else { 7 }) } else { depth };
+                let cfg = SysCfg { kind, lossy, max_crashes: crashes, hist: HistMode::Off };
                 let m = build_sys(&cfg, z.tabs(), &z.net(kind));
                 let rv = json!({"engine": "e3trace", "zoo": z.name, "cfg": cfg, "depth": depth});
                 begin_case(shared, &format!("c07 trace {} {:?}", z.name, cfg), rv.clone(), "machinery:hang");
@@ -763,7 +782,7 @@ pub fn run_c07(a: &Args, shared: &SharedReport) {
                 r.nontrivial += w.paths;
                 r.traces += w.paths;
                 r.transitions += w.steps;
-                r.outcome(format!("trace:{}:{}:{}:{}", z.name, kname(kind), lossy, w.paths));
+                r.outcome(format!("trace:{}:{}:{}:{}:{}", z.name, kname(kind), lossy, crashes, w.paths));
                 for (k, what) in w.viol {
                     r.violation(&k, what, rv.clone());
                 }
@@ -905,7 +924,21 @@ pub fn run_c09(a: &Args, shared: &SharedReport) {
                     begin_case(shared, &format!("c09 zoo {} {:?}", z.name, cfg), rv.clone(), "machinery:hang");
                     let m = build_sys(&cfg, z.tabs(), &z.net(kind));
                     let g = xplore(&m, from_real, 30_000, 64);
+                    // the crash budget is the one given to the builder, wherever in the call chain it was given
+                    let mut order_diff = Vec::new();
+                    if !lossy {
+                        for order in [1u8, 2] {
+                            let g2 = xplore(&build_sys_order(&cfg, z.tabs(), &z.net(kind), order), from_real, 30_000, 64);
+                            if g2.keys.iter().collect::<BTreeSet<_>>() != g.keys.iter().collect::<BTreeSet<_>>() {
+                                let c = |g: &XGraph<SysState, SysAction, RState>| g.keys.iter().filter(|k| k.up.iter().any(|u| !*u)).count();
+                                order_diff.push(format!("builder call order {order}: {} reachable states ({} with a crashed actor) instead of {} ({})", g2.keys.len(), c(&g2), g.keys.len(), c(&g)));
+                            }
+                        }
+                    }
                     let mut r = shared.lock().unwrap();
+                    for d in order_diff {
+                        r.violation("e3:c09-builder-order", format!("zoo {} budget {k}: {d}", z.name), rv.clone());
+                    }
                     let mut crashed_sets = BTreeSet::new();
                     for (i, key) in g.keys.iter().enumerate() {
                         r.states += 1;
